@@ -442,7 +442,13 @@ T_Store(p) ==
        IF S.conc = n THEN S' = Fin(S, p) /\ UNCHANGED H
        ELSE /\ S' = [S EXCEPT !.conc = n, !.loc[p].old = S.conc, !.loc[p].n = n, !.pc[p] = "tune.stored"]
             /\ H' = [H EXCEPT !.concMax = Max({@, n})]
-TuneRet(p) == IF TrackTune /\ S'.pc[p] \in {"call", "done"} THEN [H EXCEPT !.tb = [n |-> S.loc[p].n, old |-> {j \in Jobs : S.jst[j] = "processing"}]] ELSE H
+\* the jobs dispatched before TunePool returns: Processing, or in a dispatcher's hands; a dispatcher that holds a slot without a job
+\* yet makes the set uncertain (n = 0: nothing is claimed for this TunePool)
+TuneRet(p) == IF TrackTune /\ S'.pc[p] \in {"call", "done"}
+                THEN [H EXCEPT !.tb = [n |-> IF \E d \in Disps : S.pc[d] \in {"disp.reserve", "i.disp.lock"} THEN 0 ELSE S.loc[p].n,
+                                       old |-> {j \in Jobs : S.jst[j] = "processing"}
+                                               \cup ({S.loc[d].j : d \in {x \in Disps : S.pc[x] \in {"disp.deq", "disp.proc", "disp.node", "node.init"}}} \ {0})]]
+                ELSE H
 T_After(p) ==
   /\ S.pc[p] = "tune.stored"
   /\ IF S.loc[p].n > S.loc[p].old THEN MxFree /\ S' = Fin(NotifyS(S), p)
